@@ -323,6 +323,10 @@ CASES = {
     'core7_noflow': dict(kind='core', n_pos=7, gap='no_flow'),
     'core7_ductavg': dict(kind='core', n_pos=7, gap='duct_average'),
     'core19_flow': dict(kind='core', n_pos=19, gap='flow'),
+    # temperature-dependent coolant + parameter-update tolerance: the update schedule of an assembly must not depend on
+    # the order in which the assemblies of its type are processed (which a rotation of the loading changes)
+    'core7_flow_update_tolerance': dict(kind='core', n_pos=7, gap='flow', coolant='sodium', total_power=6.0e5,
+                                        extra='    param_update_tol = 0.02\n'),
 }
 
 
@@ -360,7 +364,8 @@ def _metamorphic(name):
                           float(np.max(np.abs(f1['duct'] - _apply(f0['duct'], perms['duct'])))))
                 asym = float(np.max(np.abs(f1['cool'] - f0['cool'])))
                 tried.append((sense, err, asym))
-            best = min(tried, key=lambda t: t[1])
+            # a rotation by +60 and by -60 degrees are both symmetries: both senses must hold (one sense for the mirror)
+            best = max(tried, key=lambda t: t[1])
             ok = best[1] < 1e-9 and best[2] > 1e-3
             return name, {'equivariant': (ok, f'max |T(g.X) - g.T(X)| = {best[1]:.3e} K (field asymmetry {best[2]:.3e} K; '
                                               f'senses tried {[(s, float("%.2e" % e)) for s, e, _ in tried]})')}
@@ -382,8 +387,11 @@ def _metamorphic(name):
             n = 6 * (ring - 1)
             k2 = (k - 1 + sense * (ring - 1)) % n + 1
             return spots.index((ring, k2))
+        more = dict(coolant=spec['coolant']) if spec.get('coolant') else {}
+        if spec.get('total_power'):
+            more['total_power'] = spec['total_power']
         base_p = G.write_problem(os.path.join(wd, 'base'), asms=types, positions=base_pos, gap_model=spec['gap'],
-                                 setup_extra='    axial_mesh_size = 0.01\n')
+                                 setup_extra='    axial_mesh_size = 0.01\n' + spec.get('extra', ''), **more)
         _, rb = G.build(base_p, sweep=True)
         tried = []
         for sense_core in (1, -1):
@@ -394,7 +402,7 @@ def _metamorphic(name):
                     pos2[img[i]] = (names[i], spots[img[i]][0], spots[img[i]][1], flows[i])
                 d = os.path.join(wd, f'r{sense_core}{sense_asm}')
                 p2 = G.write_problem(d, asms=types, positions=pos2, gap_model=spec['gap'],
-                                     setup_extra='    axial_mesh_size = 0.01\n')
+                                     setup_extra='    axial_mesh_size = 0.01\n' + spec.get('extra', ''), **more)
                 # the power file of the rotated core: base rows moved to the image assembly, items turned
                 shutil.copy(os.path.join(wd, 'base', 'power_0.csv'), os.path.join(d, 'power_0.csv'))
                 perms = {i + 1: _asm_perms(rb.assemblies[i], sense_asm, 'rot60') for i in range(n_pos)}
@@ -414,9 +422,13 @@ def _metamorphic(name):
                 g1 = np.sort(np.asarray(rt.core.coolant_gap_temp))
                 err = max(err, float(np.max(np.abs(g0 - g1))))
                 tried.append((sense_core, sense_asm, err, ''))
-        best = min(tried, key=lambda t: t[2])
-        ok = best[2] < 1e-8
-        return name, {'equivariant': (ok, f'max deviation {best[2]:.3e} K for (core sense, assembly sense) = {best[:2]}; all: '
+        # turning the loading by +60 and by -60 degrees are both symmetries: of the four (core sense, assembly sense)
+        # pairings tried, the two consistent ones must BOTH reproduce the turned solution (the other two pair a core
+        # rotation with the opposite rotation of the assemblies and are not symmetries)
+        ranked = sorted(tried, key=lambda t: t[2])
+        best = ranked[1]
+        ok = best[2] < 1e-8 and ranked[0][0] != ranked[1][0]
+        return name, {'equivariant': (ok, f'max deviation {best[2]:.3e} K over both rotation senses (second best pairing {best[:2]}); all: '
                                           + str([(a, b, float('%.2e' % e)) for a, b, e, _ in tried]))}
     except BaseException as e:
         import traceback
